@@ -238,6 +238,10 @@ def run(ctx):
                 example="two peers interleaved between this operation and the one it depends on")
     R.check("C18.1", "OWN", fi_loop, "queue mutated only by append in thread-reachable code", not [v for v in viol if v[2] == "OWN"], "")
     R.check("C18.2", "ATOM", fi_loop, "no shared slot / registry written from receive threads", not [v for v in viol if v[2] == "ATOM"], "")
+    # ---- the receive thread stands on recv_msg: a framing error there kills the thread (or desynchronises the stream) and every
+    # later message of that peer is lost -- the framing obligations of C17 (exact consumption, EOF, refusals) are obligations here
+    from . import c17
+    c17.check_recv(ctx, oid="C18.6")
     # ---- COUNT
     bad, npaths = count_violations(fi_loop.node, methods=model.methods)
     if bad is None:
